@@ -355,7 +355,7 @@ async fn http1_conn(mut stream: SimStream, col: Arc<Collector>, host: HostCfg, c
         } else {
             let (kind, shift, reps) = {
                 let mut g = col.sched.lock();
-                (g.choices.weighted(&[4, 6, 1, 2, 1]), g.choices.choose(4) as usize, 3 + g.choices.choose(12) as usize)
+                (g.choices.weighted(&[4, 6, 1, 2, 1]), g.choices.choose(67) as usize, 3 + g.choices.choose(12) as usize)
             };
             match kind {
                 0 => Vec::new(),
@@ -370,8 +370,8 @@ async fn http1_conn(mut stream: SimStream, col: Arc<Collector>, host: HostCfg, c
                     b
                 }
                 3 => {
-                    // multi-byte characters at every alignment
-                    let mut b = b"xyz"[..shift.min(3)].to_vec();
+                    // multi-byte characters at every alignment (the unit below is 67 bytes long)
+                    let mut b = vec![b'x'; shift];
                     for _ in 0..reps * 2 {
                         b.extend_from_slice("d\u{e9}faillance simul\u{e9}e du collecteur \u{2014} r\u{e9}essayez plus tard \u{1f6a7}; ".as_bytes());
                     }
@@ -380,6 +380,7 @@ async fn http1_conn(mut stream: SimStream, col: Arc<Collector>, host: HostCfg, c
                 _ => {
                     // google.rpc.Status { code = 14, message = <bytes that are no UTF-8> }
                     let mut b = vec![0x08, 14, 0x12, 0xff, 0x02];
+                    b.extend(std::iter::repeat(0x01).take(shift % 3));
                     for i in 0..(reps * 40) {
                         b.push(0x80 | (i as u8 & 0x7f));
                     }
